@@ -814,6 +814,90 @@ pub fn c07<T: Full>(g: &mut Gen, b: &Budget, out: &mut Sink) {
     }
 }
 
+/// Sets and maps read from what a *sequence* writer produced: `Vec<T>` / `Vec<(K, V)>` encodings with
+/// repeated and unsorted entries, followed by further bytes.  Without `de_strict_order` the set / map
+/// decoder accepts them (the only additional inputs it accepts), consumes exactly the bytes of those
+/// `len` entries, and returns the collected entries; with it, they are accepted only when strictly
+/// ascending.  In both modes the bytes that follow are left alone.
+pub fn lax_collections(g: &mut Gen, thorough: bool, out: &mut Sink) {
+    fn front<C: Full>(x: &[u8]) -> String {
+        match conv(guarded(|| {
+            let mut s = x;
+            C::deserialize(&mut s).map(|v| (v, s.len()))
+        })) {
+            Ok(Ok((v, rest))) => format!("ok {} rest={}", canon_of(&v), rest),
+            Ok(Err(e)) => e,
+            Err(p) => format!("panic {}", p.replace(' ', "_")),
+        }
+    }
+    fn set_case<E: Full + Ord + Clone, C: Full>(es: Vec<E>, tail: Vec<u8>, out: &mut Sink) {
+        let Some(mut x) = enc_obs(&es).1 else { return };
+        x.extend_from_slice(&tail);
+        let case = format!("dec {} {} {}", MODE, C::ty(), hex(&x));
+        let o = front::<C>(&x);
+        out.case(&case, &o);
+        let strictly_ascending = es.windows(2).all(|w| w[0] < w[1]);
+        let mut logical: Vec<E> = es.clone();
+        logical.sort();
+        logical.dedup();
+        let mut want = String::new();
+        want.push_str("(l");
+        for e in &logical {
+            want.push(' ');
+            e.canon(&mut want);
+        }
+        want.push(')');
+        let accepted = MODE == "lax" || strictly_ascending;
+        let expect = if accepted { format!("ok {} rest={}", want, tail.len()) } else { "err invalidData keyOrder".to_string() };
+        for label in ["C04", "C05"] {
+            out.oracle(label, o == expect, &case,
+                       &format!("{} entries as written by a sequence writer, {} byte(s) follow: got {} expected {}", es.len(), tail.len(), o, expect));
+        }
+        // the whole-input entry point on the same bytes
+        let (o2, _) = fs_obs::<C>(&x);
+        let expect2 = if !accepted { "err invalidData keyOrder".to_string() }
+                      else if tail.is_empty() { format!("ok {}", want) } else { "err invalidData notAllBytesRead".to_string() };
+        out.oracle("C05", o2 == expect2, &case, &format!("from_slice gave {} expected {}", o2, expect2));
+    }
+    use crate::dynty::{HashMap, HashSet};
+    use std::collections::{BTreeMap, BTreeSet};
+    let rounds = if thorough { 400 } else { 60 };
+    for _ in 0..rounds {
+        let n = g.below(6) as usize;
+        let mut es: Vec<u8> = (0..n).map(|_| g.below(4) as u8 + if g.chance(1, 4) { 250 } else { 0 }).collect();
+        if g.chance(1, 3) {
+            es.sort();
+        }
+        let tl = g.below(4) as usize;
+        let tail = g.bytes(tl);
+        set_case::<u8, BTreeSet<u8>>(es.clone(), tail.clone(), out);
+        set_case::<u8, HashSet<u8>>(es.clone(), tail.clone(), out);
+        let ss: Vec<String> = es.iter().map(|b| "k".repeat((*b % 3) as usize)).collect();
+        set_case::<String, BTreeSet<String>>(ss.clone(), tail.clone(), out);
+        let ws: Vec<u16> = es.iter().map(|b| (*b as u16) * 257).collect();
+        set_case::<u16, HashSet<u16>>(ws.clone(), tail.clone(), out);
+        // maps: the last value of a repeated key wins
+        let kvs: Vec<(u8, u16)> = es.iter().enumerate().map(|(i, k)| (*k, i as u16)).collect();
+        let Some(mut x) = enc_obs(&kvs).1 else { continue };
+        x.extend_from_slice(&tail);
+        let asc = kvs.windows(2).all(|w| w[0].0 < w[1].0);
+        let mut m: BTreeMap<u8, u16> = BTreeMap::new();
+        for (k, v) in &kvs {
+            m.insert(*k, *v);
+        }
+        let want = canon_of(&m);
+        let accepted = MODE == "lax" || asc;
+        let expect = if accepted { format!("ok {} rest={}", want, tail.len()) } else { "err invalidData keyOrder".to_string() };
+        for (name, o) in [("btree", front::<BTreeMap<u8, u16>>(&x)), ("hash", front::<HashMap<u8, u16>>(&x))] {
+            let case = format!("dec {} (map {} u8 u16) {}", MODE, name, hex(&x));
+            out.case(&case, &o);
+            for label in ["C04", "C05"] {
+                out.oracle(label, o == expect, &case, &format!("map entries as written by a sequence writer: got {} expected {}", o, expect));
+            }
+        }
+    }
+}
+
 /// one catalogue entry, type-erased
 pub struct Entry {
     pub name: &'static str,
